@@ -239,4 +239,36 @@ def sentEvents : List FOp → List Event
 def pipelineWithCollector (sort : List File → List File) (max period : Nat) (ops : List FOp) : List Msg :=
   pipeline max period (collect sort ops)
 
+/-! ## search/shards.go: sendByRepository
+
+One shard result is split into one event per run of consecutive files of the same repository (compound shards); every
+run is ranked on its own; the statistics travel with the last event ("Stats must stay aggregate-able"). -/
+
+structure RFile where
+  id : Nat
+  repo : Nat
+  deriving Repr, DecidableEq
+
+/-- the loop over `result.Files`: `cur` is the run being collected, `curRepo` its `RepositoryID` -/
+def groupLoop (curRepo : Nat) (cur : List RFile) : List RFile → List (List RFile)
+  | [] => [cur]
+  | f :: rest =>
+    if curRepo != f.repo then cur :: groupLoop f.repo [f] rest
+    else groupLoop curRepo (cur ++ [f]) rest
+
+def groups : List RFile → List (List RFile)
+  | [] => []
+  | f :: rest => groupLoop f.repo [f] rest
+
+/-- `send(…, zoekt.Stats{})` for every run but the last, `send(…, result.Stats)` for the last -/
+def attachStats (sort : List RFile → List RFile) (stats : Stats) : List (List RFile) → List (List RFile × Stats)
+  | [] => []
+  | [g] => [(sort g, stats)]
+  | g :: rest => (sort g, Stats.empty) :: attachStats sort stats rest
+
+/-- `sendByRepository`; `multi` = `len(result.RepoURLs) > 1` -/
+def byRepo (sort : List RFile → List RFile) (multi : Bool) (stats : Stats) (files : List RFile) :
+    List (List RFile × Stats) :=
+  if !multi || files.isEmpty then [(sort files, stats)] else attachStats sort stats (groups files)
+
 end ZoektModel.C25
